@@ -79,7 +79,7 @@ func (f *FeedbackAdapter) onSentTWCC(ts time.Time, extID uint8, header *rtp.Head
 func (f *FeedbackAdapter) OnSent(ts time.Time, header *rtp.Header, size int, attributes interceptor.Attributes) error {
 	hdrExtensionID := attributes.Get(TwccExtensionAttributesKey)
 	id, ok := hdrExtensionID.(uint8)
-	if ok && hdrExtensionID != 0 {
+	if ok && id != 0 {
 		return f.onSentTWCC(ts, id, header, size)
 	}
 
